@@ -62,7 +62,14 @@ impl SocketSend for ReqSocket {
             if let Some(mut peer) = self.backend.peers.get_async(&next_peer_id).await {
                 self.backend.round_robin.push(next_peer_id.clone());
                 message.push_front(Bytes::new());
-                peer.send_queue.send(Message::Message(message)).await?;
+                let sent = peer.send_queue.send(Message::Message(message)).await;
+                drop(peer);
+                if let Err(e) = sent {
+                    // The connection is gone: forget the peer so that later
+                    // requests go to the remaining ones.
+                    self.backend.peer_disconnected(&next_peer_id);
+                    return Err(e.into());
+                }
                 self.current_request = Some(next_peer_id);
                 return Ok(());
             }
@@ -81,7 +88,12 @@ impl SocketRecv for ReqSocket {
                 crate::verif_hooks::yield_point("req.recv.after_take").await;
                 if let Some(mut peer) = self.backend.peers.get_async(&peer_id).await {
                     let reply = peer.recv_queue.next().await;
+                    drop(peer);
                     self.current_request = None;
+                    if !matches!(reply, Some(Ok(_))) {
+                        // Read error or end of stream: the connection is gone.
+                        self.backend.peer_disconnected(&peer_id);
+                    }
                     match reply {
                         Some(Ok(Message::Message(mut m))) => {
                             if m.len() < 2 {
